@@ -68,14 +68,15 @@ type call struct {
 }
 
 type world struct {
-	svr      *service.Server
-	conns    map[int]*conn
-	calls    []call
-	callMu   sync.Mutex
-	stopDone chan service.VerifServiceInfo
-	inproc   map[int]*service.OnPublishFunc
-	serving  sync.WaitGroup // handleConnection calls in progress
-	fails    []string       // harness-level failures (stuck, malformed stream)
+	svr          *service.Server
+	conns        map[int]*conn
+	calls        []call
+	callMu       sync.Mutex
+	stopDone     chan service.VerifServiceInfo
+	inproc       map[int]*service.OnPublishFunc
+	serving      sync.WaitGroup // handleConnection calls in progress
+	fails        []string       // harness-level failures (stuck, malformed stream)
+	eofTransport bool           // the server's ends of the connections report the end of the stream with the last bytes
 }
 
 func newWorld() *world {
@@ -99,12 +100,68 @@ func (w *world) fail(format string, a ...interface{}) {
 	w.fails = append(w.fails, fmt.Sprintf(format, a...))
 }
 
+// eofConn is the server's end of a connection over a transport that reports the end of the stream together with the
+// last bytes (as crypto/tls does when the close notification is already buffered): Read returns (n > 0, io.EOF).
+// io.Reader allows that, and whatever arrived must still be processed.
+type eofConn struct {
+	net.Conn
+	ch  chan []byte
+	err error
+	cur []byte
+}
+
+func newEOFConn(c net.Conn) *eofConn {
+	e := &eofConn{Conn: c, ch: make(chan []byte, 64)}
+	go func() {
+		buf := make([]byte, 65536)
+		for {
+			n, err := c.Read(buf)
+			if n > 0 {
+				e.ch <- append([]byte(nil), buf[:n]...)
+			}
+			if err != nil {
+				e.err = err
+				close(e.ch)
+				return
+			}
+		}
+	}()
+	return e
+}
+
+func (e *eofConn) Read(p []byte) (int, error) {
+	if len(e.cur) == 0 {
+		c, ok := <-e.ch
+		if !ok {
+			return 0, e.err
+		}
+		e.cur = c
+	}
+	n := copy(p, e.cur)
+	e.cur = e.cur[n:]
+	if len(e.cur) == 0 {
+		select {
+		case c, ok := <-e.ch:
+			if !ok {
+				return n, e.err // the last bytes and the end of the stream in one Read
+			}
+			e.cur = c
+		case <-time.After(3 * time.Millisecond):
+		}
+	}
+	return n, nil
+}
+
 func (w *world) open(id int) *conn {
 	cli, srv := net.Pipe()
 	c := &conn{id: id, cli: cli, pkts: make(chan []byte, 4096), wq: make(chan []byte, 64)}
 	w.conns[id] = c
 	w.serving.Add(1)
-	go func() { defer w.serving.Done(); w.svr.VerifServe(srv) }()
+	var sc net.Conn = srv
+	if w.eofTransport {
+		sc = newEOFConn(srv)
+	}
+	go func() { defer w.serving.Done(); w.svr.VerifServe(sc) }()
 	go func() { // one writer per connection keeps the order of what is sent
 		for b := range c.wq {
 			c.cli.SetWriteDeadline(time.Now().Add(5 * time.Second))
@@ -222,7 +279,14 @@ func (w *world) event(ev hx.Group) map[int][][]byte {
 		b := gbytes(ev, 3)
 		c := w.open(id)
 		self = id
-		c.write(b)
+		if first, _, ok, _ := mq.NextPacket(b); ok && len(first) > 2 && (id+len(b))%2 == 0 {
+			// the last byte of the first packet arrives on its own: how the bytes are cut into reads is not the client's
+			// business
+			c.write(b[:len(first)-1])
+			c.write(b[len(first)-1:])
+		} else {
+			c.write(b)
+		}
 		var items [][]byte
 		// the answer to the first packet: CONNACK or closure
 		select {
@@ -272,6 +336,28 @@ func (w *world) event(ev hx.Group) map[int][][]byte {
 			w.fail("STUCK: teardown of connection %d did not finish within 8s after the client dropped it\n%s", id, dump())
 		}
 		obs[id] = [][]byte{nil}
+	case 9: // the client writes the bytes and closes at once
+		id := int(ev[1])
+		c := w.conns[id]
+		self = id
+		for len(w.stopDone) > 0 {
+			<-w.stopDone
+		}
+		wrote := make(chan struct{})
+		go func() {
+			c.cli.SetWriteDeadline(time.Now().Add(5 * time.Second))
+			c.cli.Write(gbytes(ev, 2))
+			c.cli.Close()
+			close(wrote)
+		}()
+		<-wrote
+		c.live, c.accepted, c.closed = false, false, true
+		select {
+		case <-w.stopDone:
+		case <-time.After(8 * time.Second):
+			w.fail("STUCK: teardown of connection %d did not finish within 8s after the client wrote its last bytes and closed\n%s", id, dump())
+		}
+		// (nothing can be observed on the connection itself any more)
 	case 4: // Server.Subscribe s q topic
 		s, q, topic := int(ev[1]), byte(ev[2]), string(gbytes(ev, 3))
 		f, ok := w.inproc[s]
@@ -449,6 +535,11 @@ type ofail struct {
 // failures and the indices of the events that were first packets the broker must refuse
 func (rn *runner) exec(evs []hx.Group, count bool) (obsAll []hx.Group, fails []ofail, refused []int) {
 	w := newWorld()
+	for _, ev := range evs {
+		if ev[0] == 9 {
+			w.eofTransport = true
+		}
+	}
 	// the specification-level reference and the variants that explain the listed findings F7 / F18
 	refs := []*refBroker{newRef(false, false), newRef(true, false), newRef(false, true), newRef(true, true)}
 	tags := []string{"", "empty-level", "F18-pubrel-order", "F18-pubrel-order+empty-level"}
